@@ -21,7 +21,7 @@ package flamego
 //@ define hooksNonNil(w *responseWriter) bool = forall k int :: 0 <= k && k < len(w.beforeFuncs) ==> w.beforeFuncs[k] != nil
 
 //@ define rwInv(w *responseWriter) bool = w.ResponseWriter != nil && hooksNonNil(w) &&
-//@     (w.writeHeaderOnce.fired <==> w.status != 0) &&
+//@     (w.writeHeaderOnce.fired <==> w.status != 0) && (w.beforeOnce.fired <==> w.status != 0) &&
 //@     w.ResponseWriter.hdrCount - w.hdr0 == ite(w.status != 0, 1, 0) &&
 //@     w.ResponseWriter.hdrSent == (w.status != 0 || w.sent0) &&
 //@     (w.status != 0 ==> w.ResponseWriter.firstStatus == w.status || w.sent0) &&
@@ -64,10 +64,11 @@ package flamego
 //@   props C13 C05
 //@   requires rwInv(w)
 //@   requires 100 <= s && s <= 999
-//@   modifies w.status, w.writeHeaderOnce.fired, w.hookCalls, w.hookOrder, w.hdrAtHooks, w.nHooksRun,
+//@   modifies w.status, w.writeHeaderOnce.fired, w.beforeOnce.fired, w.hookCalls, w.hookOrder, w.hdrAtHooks, w.nHooksRun,
 //@            w.ResponseWriter.hdrCount, w.ResponseWriter.hdrSent, w.ResponseWriter.firstStatus, w.ResponseWriter.bodyAtHdr, w.ResponseWriter.ctAtHdr
-//@   ghost after callBefore#0: w.hdrAtHooks = w.ResponseWriter.hdrCount
-//@   ghost after callBefore#0: w.nHooksRun = len(w.beforeFuncs)
+// the hooks run inside their own Once, before the Once that forwards the status
+//@   ghost after Do#0: w.hdrAtHooks = ite(old(w.beforeOnce.fired), w.hdrAtHooks, w.ResponseWriter.hdrCount)
+//@   ghost after Do#0: w.nHooksRun = ite(old(w.beforeOnce.fired), w.nHooksRun, len(w.beforeFuncs))
 //@   ensures rwInv(w)
 //@   ensures old(w.status) == 0 ==> w.status == s && w.ResponseWriter.hdrCount == old(w.ResponseWriter.hdrCount) + 1
 //@   ensures old(w.status) == 0 ==> w.nHooksRun == len(w.beforeFuncs)
@@ -76,7 +77,7 @@ package flamego
 //@ func (*responseWriter).Write
 //@   props C13 C05
 //@   requires rwInv(w)
-//@   modifies w.status, w.size, w.writeHeaderOnce.fired, w.hookCalls, w.hookOrder, w.hdrAtHooks, w.nHooksRun,
+//@   modifies w.status, w.size, w.writeHeaderOnce.fired, w.beforeOnce.fired, w.hookCalls, w.hookOrder, w.hdrAtHooks, w.nHooksRun,
 //@            w.ResponseWriter.hdrCount, w.ResponseWriter.hdrSent, w.ResponseWriter.firstStatus, w.ResponseWriter.bodyAtHdr, w.ResponseWriter.ctAtHdr, w.ResponseWriter.bodyBytes, w.ResponseWriter.lastWrite
 //@   ensures rwInv(w)
 //@   ensures w.status == ite(old(w.status) == 0, 200, old(w.status))
@@ -89,7 +90,7 @@ package flamego
 //@ func (*responseWriter).Flush
 //@   props C13
 //@   requires rwInv(w)
-//@   modifies w.status, w.writeHeaderOnce.fired, w.hookCalls, w.hookOrder, w.hdrAtHooks, w.nHooksRun,
+//@   modifies w.status, w.writeHeaderOnce.fired, w.beforeOnce.fired, w.hookCalls, w.hookOrder, w.hdrAtHooks, w.nHooksRun,
 //@            w.ResponseWriter.hdrCount, w.ResponseWriter.hdrSent, w.ResponseWriter.firstStatus, w.ResponseWriter.bodyAtHdr, w.ResponseWriter.ctAtHdr, w.ResponseWriter.flushes
 //@   ensures rwInv(w)
 //@   ensures w.status == ite(old(w.status) == 0, 200, old(w.status))
@@ -156,7 +157,7 @@ package flamego
 //@   ensures old(c.(*context).responseWriter.isWritten) ==> c.(*context).responseWriter.isWritten
 
 //@ func (*context).run
-//@   props C03 C05
+//@   props C03 C05 C04
 //@   skip typeassert nil@call:handleReturn
 //@   call Invoke#0 as handlerCallback(c, h)
 //@   requires ctxInv(c)
@@ -195,7 +196,7 @@ package flamego
 //@ define handlersNonNil(hs []Handler) bool = forall k int :: 0 <= k && k < len(hs) ==> hs[k] != nil
 
 //@ func newContext
-//@   props C03 C05
+//@   props C03 C05 C07
 //@   requires r != nil && w != nil
 //@   requires handlersNonNil(handlers)
 //@   ensures dyn(result) == type(*context) && fresh(result)
@@ -205,7 +206,7 @@ package flamego
 //@   ensures fresh(result.(*context).Injector) && fresh(result.(*context).responseWriter)
 
 //@ func (*Flame).createContext
-//@   props C03 C05
+//@   props C03 C05 C07
 //@   requires r != nil && w != nil
 //@   requires handlersNonNil(handlers) && handlersNonNil(f.handlers)
 //@   ensures dyn(result) == type(*context) && fresh(result)
@@ -278,14 +279,14 @@ package flamego
 //@ define shortcutInv(r *router) bool = forall m string, p string :: has(r.staticRoutes, m) && has(r.staticRoutes[m], p) ==> shortcutOK(r.staticRoutes[m][p])
 
 //@ func (*router).ServeHTTP
-//@   props C07 C02 C10 C05
-//@   requires[C10] shortcutAgrees(r)
+//@   props C07 C02 C10 C05 C01
+//@   requires[C10,C01] shortcutAgrees(r)
 //@   ghost before dyn#0: req.chosen = leaf
 //@   ghost before dyn#1: req.chosen = leaf
 //@   ghost before notFound#0: req.chosen = nil
 //@   ghost before notFound#1: req.chosen = nil
-//@   ensures[C10] has(r.routeTrees, req.Method) ==> req.chosen == specNext(nodeOf(r.routeTrees[req.Method]), trimLeftSlash(req.URL.Path), 0, req.Header)
-//@   ensures[C10] !has(r.routeTrees, req.Method) ==> req.chosen == nil
+//@   ensures[C10,C01] has(r.routeTrees, req.Method) ==> req.chosen == specNext(nodeOf(r.routeTrees[req.Method]), trimLeftSlash(req.URL.Path), 0, req.Header)
+//@   ensures[C10,C01] !has(r.routeTrees, req.Method) ==> req.chosen == nil
 //@   assert[C02] before dyn#1: params["route"] == routeStr(leafBase(leaf).route)
 //@   requires routerWF(r) && treeWF()
 //@   requires w != nil && req != nil && req.URL != nil
